@@ -1,6 +1,7 @@
 package main
 
 import (
+	"os"
 	"go/types"
 	"fmt"
 	"go/ast"
@@ -102,6 +103,9 @@ func succListObligations(c *Ctx, rule, name string) string {
 					isLen := isLenOf(fn, be.X, func(x ast.Expr) bool { return true })
 					return isLen && fn.Prov(be.Y) == "param#2" && ((be.Op == token.GEQ && !truth) || (be.Op == token.LSS && truth))
 				})
+			}
+			if !okBound && os.Getenv("VERIF_DEBUG_FACTS") != "" && ap != nil {
+				fmt.Fprintf(os.Stderr, "facts at append in %s: %s\n", name, fn.FactsAt(ap).String())
 			}
 			c.Ob(rule, name+"#bound-before-append", fn.Decl.Pos(), okBound, "len(list) < maxLen holds on every path to the append (the bound test comes first and leaves the loop)")
 			// the bound branch breaks (does not continue: a continue would still be correct for the bound but breaks order only if appends could follow; require break/return)
